@@ -12,6 +12,7 @@
     C [int] overflow is not modelled. *)
 From Coq Require Import ZArith List Bool.
 From CV Require Import Generated.Tables Generated.Scores.
+From CV Require Export Model.Base.
 Import ListNotations.
 Open Scope Z_scope.
 
@@ -29,8 +30,6 @@ Record acfg := mkCfg {
   min_overlap : Z
 }.
 
-Definition zlen {A} (l : list A) : Z := Z.of_nat (length l).
-Definition znth {A} (d : A) (l : list A) (i : Z) : A := if i <? 0 then d else nth (Z.to_nat i) l d.
 Definition dummy : entry := mkE 0 0 0.
 
 (** number of N/n (78/110) among the first i characters of the raw reference: n_counts[i] *)
